@@ -410,6 +410,84 @@ def eval_case(model, tag, T, mname, prefix, prop, kwargs, pr, ctx):
     return ("ok", None, None, facts)
 
 
+ADDING = ("_add_", "_insert_", "get_or_add_", "get_or_change_to_", "add_")
+
+
+def eval_decoy(model, tag, T, mname, prefix, prop, kwargs, pr, ctx):
+    """Siblings that carry descendants with the same tags as the parent's own child kinds (PowerPoint writes such
+    documents: a:blip/a:extLst inside a:blipFill inside p:spPr). The new child must still become a DIRECT child of
+    the parent at a schema-valid position: a successor search that descends into siblings puts it inside one."""
+    from lxml import etree as _et
+    ctx = list(ctx)
+    if not model.valid(T, ctx) or not ctx:
+        return None
+    parent = _build(tag, ctx)
+    kinds = model.kinds(T)
+    for el in _kids(parent):
+        for k in kinds:
+            _et.SubElement(el, k)
+    pre = _kids(parent)
+    deep_before = sum(1 for _ in parent.iter()) - 1
+    try:
+        _call(parent, mname, prefix, prop, kwargs)
+    except Exception:  # noqa
+        return None
+    post = _kids(parent)
+    pre_ids = set(map(id, pre))
+    added = [e for e in post if id(e) not in pre_ids]
+    deep_after = sum(1 for _ in parent.iter()) - 1
+    show = lambda tags: "[" + ", ".join(local(t) for t in tags) + "]"  # noqa: E731
+    head = "%s as %s, siblings %s each holding descendants named like the parent's child kinds: %s(%s)" % (
+        ptag(tag), T[1], show(ctx), mname, _kwlabel(kwargs))
+    if pr.c and not added and deep_after > deep_before and not any(e.tag == pr.c for e in pre):
+        return ("misplaced", head + " added no direct child: the new element was inserted inside a sibling")
+    post_tags = [e.tag for e in post]
+    if added and not model.valid(T, post_tags):
+        base = [e.tag for e in post if id(e) in pre_ids]
+        if model.placeable(T, base, [e.tag for e in added]):
+            return ("order-decoy", head + " -> %s which the schema does not allow" % show(post_tags))
+    return None
+
+
+def eval_nested(model, tag, T, mname, prefix, prop, kwargs, pr):
+    """One sibling k holding one schema-permitted child g of its own (every (k, g)); the whole parent subtree must
+    validate against the relaxed schema after the call if it did before: catches hand-written mutators that edit
+    grandchildren (e.g. change-to on a choice group one level down) and leave two members of a choice."""
+    from mc.oracles import xsd as X
+    if T[0] not in (X.NS_P, X.NS_A, X.NS_C):
+        return []
+    R = X.SchemaSet.get(True)
+    from lxml import etree as _et
+    out = []
+    for k, kt in model.index.child_tags(T):
+        if kt is None or kt not in model.index.ctypes:
+            continue
+        if not model.valid(T, [k]):
+            continue
+        for g in model.kinds(kt):
+            parent = _build(tag, [k])
+            kid = _kids(parent)[0]
+            if len(kid):
+                continue  # template-filled child: leave as is
+            _et.SubElement(kid, g)
+            try:
+                if R.fragment_errors(parent, T):
+                    continue
+            except Exception:  # noqa
+                continue
+            try:
+                _call(parent, mname, prefix, prop, kwargs)
+            except Exception:  # noqa
+                continue
+            if not model.valid(T, [e.tag for e in _kids(parent)]):
+                continue  # the direct-child sequence itself is the order oracle's business (or the child was not placeable)
+            errs = R.fragment_errors(parent, T)
+            if errs:
+                out.append((local(k), local(g), "%s as %s holding <%s><%s/></%s>: %s(%s) leaves the subtree invalid: %s" % (
+                    ptag(tag), T[1], local(k), local(g), local(k), mname, _kwlabel(kwargs), errs[0][1][:200])))
+    return out
+
+
 def _kwlabel(kwargs):
     if not kwargs:
         return ""
@@ -485,6 +563,29 @@ def _work(part, chunk):
                 cur = fails.get(rule)
                 if cur is None or key < cur[0]:
                     fails[rule] = (key, msg, cx)
+        if prefix in ADDING and judged:
+            dfail = {}
+            for cx in ctxs:
+                if not (1 <= len(cx) <= 2):
+                    continue
+                r = eval_decoy(model, tag, T, mname, prefix, prop, kwargs, pr, cx)
+                part.count("evaluations")
+                part.count("decoy_contexts")
+                if r is not None:
+                    key = (len(cx), tuple(local(k) for k in cx))
+                    if r[0] not in dfail or key < dfail[r[0]][0]:
+                        dfail[r[0]] = (key, r[1], cx)
+            for rule, (key, msg, cx) in sorted(dfail.items()):
+                sig = "C10|%s|%s|%s|%s|ctx=%s" % (rule, ptag(tag), T[1], _mut_label(mname, label), ",".join(key[1]))
+                part.violation(sig, msg, {"tag": tag, "type": list(T), "mutator": mname, "label": label,
+                                          "ctx": list(cx), "rule": rule})
+            nfails = eval_nested(model, tag, T, mname, prefix, prop, kwargs, pr)
+            part.count("nested_passes")
+            if nfails:
+                k, g, msg = sorted(nfails)[0]
+                sig = "C10|nested|%s|%s|%s|ctx=%s>%s" % (ptag(tag), T[1], _mut_label(mname, label), k, g)
+                part.violation(sig, msg, {"tag": tag, "type": list(T), "mutator": mname, "label": label,
+                                          "ctx": [], "rule": "nested"})
         if judged:
             part.count("items_judged")  # (tag, type, mutator, args) with at least one judged case
             part.add("classes_judged", cls.__name__)
@@ -533,7 +634,7 @@ def run(ctx):
     fanout(ctx, _work, ctx.rotate(items), chunk_size=1)
 
     c = ctx.counters
-    accounted = c.get("discarded_context_invalid_before_call", 0) + c.get("evaluations", 0)
+    accounted = c.get("discarded_context_invalid_before_call", 0) + c.get("evaluations", 0) - c.get("decoy_contexts", 0)
     if accounted != c.get("contexts_generated", 0):
         raise HarnessError("contexts generated %d != accounted for %d" % (c.get("contexts_generated", 0), accounted))
     if c.get("judged", 0) < 10000:
@@ -560,6 +661,12 @@ def replay(data):
             if lab != label:
                 continue
             pr = prepare(model, cls, tag, T, mname, prefix, prop, kwargs)
+            if data.get("rule") in ("misplaced", "order-decoy"):
+                r = eval_decoy(model, tag, T, mname, prefix, prop, kwargs, pr, data["ctx"])
+                return r[1] if r is not None and r[0] == data["rule"] else None
+            if data.get("rule") == "nested":
+                nf = eval_nested(model, tag, T, mname, prefix, prop, kwargs, pr)
+                return sorted(nf)[0][2] if nf else None
             status, rule, msg, _ = eval_case(model, tag, T, mname, prefix, prop, kwargs, pr, data["ctx"])
             if status == "fail" and rule == data.get("rule", rule):
                 return msg
